@@ -79,7 +79,10 @@ def run_case(case):
     with core.workdir() as d:
         gaf_path, table = idx.materialize(d, case)
         gfa_path = d + "/g.gfa"
-        r = idx.build_index(gaf_path, gfa_path, d + "/in.gvi", via="api" if via == "api" else "cli")
+        stale = len(lines) % 3 == 0
+        if stale:
+            classes.add("index_path_held_another_index")
+        r = idx.build_index(gaf_path, gfa_path, d + "/in.gvi", via="api" if via == "api" else "cli", stale=stale)
         core.check(r[0] == "ok", "index failed: %s", r)
         # whole file, no format
         res, out = idx.run_view(d, gaf_path, gfa_path, d + "/whole.txt", via=via)
@@ -118,6 +121,28 @@ def run_case(case):
                 classes.add("repeated_node_in_query")
             if len(qs) == 1:
                 classes.add("single_node_query")
+        if case["queries"] and len(lines) % 2 == 0:
+            # the documented short form: `index GAF GFA` then `view GAF -n ...`, index found under its default name;
+            # here the GAF is reached through a symbolic link (work directories of workflow managers)
+            import os
+            import shutil
+
+            os.makedirs(d + "/store")
+            os.makedirs(d + "/work")
+            real = d + "/store/reads-%d%s" % (len(lines), os.path.splitext(gaf_path)[1] if case.get("bgzf") else ".gaf")
+            shutil.copy(gaf_path, real)
+            link = d + "/work/" + os.path.basename(gaf_path)
+            os.symlink(real, link)
+            from gaftools.cli import index as _index
+
+            r = core.cli(["index", link, gfa_path]) if via != "api" else core.call(_index.run, link, gfa_path)
+            core.check(r[0] == "ok", "index on a symbolic link to the GAF failed: %s", r)
+            q = case["queries"][0]
+            ords = [i for i, t in enumerate(trav) if t & set(q)]
+            res, out = idx.run_view(d, link, gfa_path, d + "/work/sel.txt", nodes=q, via=via)
+            check_selection("index GAF; view GAF -n %s (default index name, GAF is a symbolic link)" % " -n ".join(q), res, out,
+                            [idx.expected_plain(lines[i]) for i in ords])
+            classes.add("default_index_name_via_symlink")
     classes |= set(idx.file_classes(case, table))
     return core.Result(nontrivial, sorted(classes))
 
